@@ -3,6 +3,7 @@ import PlasVerif.Proofs.UrlsNav
 import PlasVerif.Proofs.UrlsRender
 import PlasVerif.Proofs.UrlsToc
 import PlasVerif.Proofs.UrlsFoot
+import PlasVerif.Proofs.UrlsIndex
 /-!
 # C14 — every internal link in the rendered output lands on an existing target
 
@@ -274,5 +275,38 @@ example : inputOK sampleFoot = true ∧ effSplit 2 "paper.html".toList = -10 ∧
     (footnotes [] (prepare 1 sampleFoot 0)).map (fun e => (e.2.1, e.2.2)) = [(some 1, some 1), (some 1, some 1)] ∧
     (footnotes [] (prepare 2 sampleFoot 0)).map (fun e => (e.2.1, e.2.2)) = [(some 1, some 1), (some 2, some 2)] := by
   decide
+
+/-! ### the index page: one navigation link and one heading per group (`IndexUtils.groups`, `Model/UrlsIndex.lean`) -/
+
+section IndexGroups
+open PlasVerif.Model.UrlsIndex PlasVerif.Proofs.UrlsIndex
+
+/-- **The group headings of the index have pairwise distinct ids**, for every sequence of entries in whatever
+    order the sort produced (entries of one group need not be adjacent: accented initials sort apart when no
+    collator is installed) and whatever `unidecode` returns (multi-character or empty transliterations included):
+    so the letter navigation link `#id` of each group has exactly one target. -/
+theorem index_group_ids_unique (cs : List (Option (List Char))) :
+    ((groups cs).map (·.id)).Pairwise (· ≠ ·) := by
+  have inv := groupsGo_inv cs 0 [] ⟨by simp, by simp⟩
+  have := ids_pairwise _ inv
+  unfold groups
+  rw [List.pairwise_map] at this ⊢
+  exact this.imp (by intro a b h; simpa [key] using h)
+
+/-- every entry of the index is listed in a group -/
+theorem index_every_entry_grouped (cs : List (Option (List Char))) (i : Nat) (hi : i < cs.length) :
+    ∃ g ∈ groups cs, i ∈ g.items := by
+  have := groupsGo_places cs 0 [] ⟨by simp, by simp⟩ i hi
+  simpa [groups] using this
+
+example : (groups [some ['A'], some ['Z'], some ['A'], some ['S', 'S'], none, some ['_']]).map (fun g => (String.ofList g.id, g.items)) =
+    [("A", [0, 2]), ("Z", [1]), ("Symbols", [3, 4]), ("_", [5])] := by decide
+
+/-- the code before the repair (a new group whenever the title differs from the previous entry's) gives two
+    headings the same id on `A, Z, A` — e.g. `Apfel`, `zeta`, `Ärger` with the fallback collation: kernel-checked -/
+theorem index_group_ids_asIs_counterexample :
+    ¬ ((groupsAsIs [some ['A'], some ['Z'], some ['A']]).map (·.id)).Pairwise (· ≠ ·) := by decide
+
+end IndexGroups
 
 end PlasVerif.Properties.C14
